@@ -23,6 +23,10 @@ def setup():
     o = p.parse_args([]); o.cross_file = []; o.native_file = []
     cmdline.parse_cmd_line_options(o)
     M.mp, M.B, M.E, M.MI, M.ML, M.I, M.nb, M.ME, M.OPTS = mparser, build, environment, mintro, mesonlib, Interpreter, nb, MesonException, o
+    p2 = argparse.ArgumentParser(); cmdline.register_builtin_arguments(p2)
+    o2 = p2.parse_args(['-Dlayout=flat']); o2.cross_file = []; o2.native_file = []
+    cmdline.parse_cmd_line_options(o2)
+    M.OPTS_FLAT = o2
     # environment stubs (listed in the evidence): there is no ninja binary - meson only asks it for its version; no compilation database (`ninja -t compdb`)
     tooldetect.detect_ninja_command_and_version = lambda *a, **k: (['ninja'], '1.11.1')
     nb.NinjaBackend.generate_compdb = lambda self: None
@@ -45,7 +49,7 @@ class Configured:
     pass
 
 
-def configure(files, presets):
+def configure(files, presets, flat=False):
     """files: {relative path: text} of the source tree (meson.build included); presets: variables defined before the first statement runs.
     -> Configured(text of build.ninja, rules, builds, top, targets (mintro.list_targets), tests, src, bld) or raises MesonException"""
     setup()
@@ -56,9 +60,10 @@ def configure(files, presets):
         p = os.path.join(src, rel)
         os.makedirs(os.path.dirname(p), exist_ok=True)
         with open(p, 'w') as f: f.write(text)
-    env = M.E.Environment(src, bld, M.OPTS)
+    opts = M.OPTS_FLAT if flat else M.OPTS
+    env = M.E.Environment(src, bld, opts)
     b = M.B.Build(env)
-    it = M.I(b, user_defined_options=M.OPTS)
+    it = M.I(b, user_defined_options=opts)
     for k, v in presets.items(): it.variables[k] = it._holderify(v)
     it.run()
     b.def_files = it.get_build_def_files()
@@ -168,7 +173,10 @@ def gen_project(dim):
     ea = EAS[choose(len(EAS), 'generator extra_args')] if (vary_in and in_b == 4) else 'plain'
     extra = choose(7, 'alias / run target') if vary_co else 0        # alias_target() takes whole targets only
     tst = choose(11, 'test') if vary_co else 1
-    bdir = 'sub/' if b_sub else ('deep/' if place == 2 else '')
+    flat = (choose(2, 'layout') == 1) if (vary_in and place != 0 and in_b in (0, 1)) else False        # --layout=flat: every target output under meson-out/ (plus build_subdir)
+    pr.flat = flat
+    bdir = ('sub/' if b_sub else ('deep/' if place == 2 else '')) if not flat else ('meson-out/deep/' if place == 2 else 'meson-out/')
+    odir = 'meson-out/' if flat else ''
     # ---- text
     L = ["project('p')", "py = find_program('python3')", "cf = configure_file(output : 'cf.txt', configuration : {'K' : 1})",
          "g = generator(py, output : ['@BASENAME@.c', '@BASENAME@.h'], arguments : ['-c', 'pass', '@INPUT@', '--pair=@OUTPUT0@,@OUTPUT1@', '@OUTPUT1@', '@EXTRA_ARGS@'])"]
@@ -197,14 +205,15 @@ def gen_project(dim):
     pr.files = files
     # ---- expected facts (reference, from the description above and the documentation of the functions used)
     ia = concretize_int(PS['IA']) if is_sym(PS['IA']) else PS['IA']
-    outs = {'A': a_outs, 'B': [bdir + 'b.txt'], 'C': ['c1.txt', 'c2.txt']}
+    a_outs = [odir + x for x in a_outs]
+    outs = {'A': a_outs, 'B': [bdir + 'b.txt'], 'C': [odir + 'c1.txt', odir + 'c2.txt']}
     def target_of(x): return None if x is None else x[0]
     pr.outs = outs
     pr.ins = {'A': [], 'C': [outs['B'], [a_outs[0]], ['../src/in.txt'], outs['B'] + a_outs, ['../src/in.txt']][in_c]}
     pr.c_cmd_dep = a_outs[ia] if in_c == 4 else None       # an output of another target used as an ARGUMENT of the command: a dependency, not an input
     pr.ins['B'] = [['../src/in.txt'], a_outs, [a_outs[ia]], ['cf.txt'], None, [a_outs[0], '../src/in.txt'], []][in_b]         # None: generator outputs in B's private directory
     pr.b_generated = in_b == 4
-    pr.b_extra_deps = ['a1.txt', '../src/in.txt'] if in_b == 6 else []
+    pr.b_extra_deps = [a_outs[0], '../src/in.txt'] if in_b == 6 else []
     pr.default = [t for t, f in (('A', PS['BA']), ('B', PS['BB'])) if decide(bt_any(f))]
     pr.installed_c = decide(bt_any(PS['IC']))
     if pr.installed_c: pr.default.append('C')        # an installed custom target is built by default
@@ -218,5 +227,5 @@ def gen_project(dim):
 
 def run_project(dim):
     pr = gen_project(dim)
-    c = configure(pr.files, pr.presets)
+    c = configure(pr.files, pr.presets, pr.flat)
     return pr, c, Graph(c)
